@@ -48,7 +48,8 @@ pub fn gen_term(s: &mut dyn Src, cfg: &TermCfg, depth: u32) -> Term {
         1 => Term::var(pick(s, &cfg.vars)),
         2 => Term::Anon,
         3 => {
-            // f/1, f/2, g/2, h/0
+            // f/1, f/2, g/2, h/0, and rarely a wide term k/3..k/9
+            if chance(s, 1, 16) { let n = 3 + s.draw(7); return Term::Cmp("k".into(), (0..n).map(|_| gen_term(s, cfg, depth + 1)).collect()); }
             match s.draw(4) {
                 0 => Term::Cmp("f".into(), vec![gen_term(s, cfg, depth + 1)]),
                 1 => Term::Cmp("f".into(), vec![gen_term(s, cfg, depth + 1), gen_term(s, cfg, depth + 1)]),
@@ -61,7 +62,8 @@ pub fn gen_term(s: &mut dyn Src, cfg: &TermCfg, depth: u32) -> Term {
 }
 
 pub fn gen_list(s: &mut dyn Src, cfg: &TermCfg, depth: u32) -> Term {
-    let n = s.draw(4) as usize;
+    // usually 0-3 elements, rarely up to 20
+    let n = if chance(s, 1, 16) { s.draw(21) } else { s.draw(4) } as usize;
     let mut es = vec![];
     for _ in 0..n { es.push(gen_term(s, cfg, depth + 1)); }
     // a tail needs at least one element in the surface syntax
